@@ -5,7 +5,8 @@
 set -eu
 VERIF="$(cd "$(dirname "$0")/.." && pwd)"
 GR="$(GOTOOLCHAIN=local go1.26.8 env GOROOT)"
-OUT="$VERIF/.bin/overlay"
+OUT="${VERIF_OVERLAY_OUT:-$VERIF/.bin/overlay}"
+REPO="${VERIF_REPO:-/repo}"
 mkdir -p "$OUT"
 python3 - "$GR/src/runtime/select.go" "$OUT/runtime_select.go" "$GR/src/runtime/chan.go" "$OUT/runtime_chan.go" <<'PY'
 import sys,re
@@ -33,6 +34,6 @@ assert n==5, "runtime/chan.go changed: %d bubble checks found" % n
 open(sys.argv[4],"w").write(ch)
 PY
 cat > "$OUT/overlay.json" <<JSON
-{"Replace": {"$GR/src/runtime/select.go": "$OUT/runtime_select.go", "$GR/src/runtime/chan.go": "$OUT/runtime_chan.go", "/repo/workflow/storage/cosmosdb/zz_verif.go": "$VERIF/overlay/cosmosdb_zz_verif.go"}}
+{"Replace": {"$GR/src/runtime/select.go": "$OUT/runtime_select.go", "$GR/src/runtime/chan.go": "$OUT/runtime_chan.go", "$REPO/workflow/storage/cosmosdb/zz_verif.go": "$VERIF/overlay/cosmosdb_zz_verif.go"}}
 JSON
 echo "$OUT/overlay.json"
